@@ -38,7 +38,7 @@ func c13NestedPipeline(g *zz.Gen, r *vfRand) map[string]interface{} {
 		fs = append(fs, d)
 		node := map[string]interface{}{"filter": d["name"]}
 		if r.Chance(1, 8) {
-			node["filter"] = r.PickStr("nosuch", "END", "")
+			node["filter"] = r.PickStr("nosuch", "END", "", g.NearMiss("END"), g.NearMiss(fmt.Sprint(d["name"])))
 		}
 		if r.Chance(1, 5) {
 			node["alias"] = r.PickStr("a", "g1")
@@ -122,7 +122,7 @@ var c13Entry = &zz.ObjectEntry{
 			return
 		}
 		for i, rq := range in.Reqs {
-			ctx := zz.NewContext(rq)
+			ctx := zz.NewContextFor(in.Doc, rq)
 			if ctx == nil {
 				continue
 			}
